@@ -54,12 +54,13 @@ POOL = [
     "# lost comment\n" + "y\n" * 12,
     "#language: ht\nKarakteristik: n\n  Senaryo: s\n    Sipoze a\n    Ak b\n",
     "#language: sk\nFunkcia: o\n  Scenár: s\n    Pokiaľ a\n    Ak b\n",
+    "@f1 @f2\nFeature: p\n  @r1\n  Rule: one\n    @s1\n    Scenario: s\n      Given x\n  @r2 @r3\n  Rule: two\n    Scenario Outline: o\n      Given <a>\n      @e\n      Examples:\n        | a |\n        | 1 |\n",
 ]
 PERTURBS = ['plain English', 'switches to fr', 'switches to no + outline', 'ends inside """ doc string (indent 6)', 'ends inside ``` doc string',
             'closed doc string at indent 4', 'rejected with non-empty look-ahead queue', '11 errors (parse aborted)', 'unknown language',
             'comments everywhere', 'Rule + Backgrounds', 'tags before Examples', 'empty', 'ragged table',
             'first error identical to the first error of the 11-error document', 'comment + 11 errors (document node never built)',
-            "ht: 'Ak ' is a conjunction", "sk: 'Ak ' is a when keyword"]
+            "ht: 'Ak ' is a conjunction", "sk: 'Ak ' is a when keyword", 'tags on feature, two rules, scenario, examples']
 
 
 def norm(o):
@@ -121,10 +122,12 @@ def _strip_ids(o):
 
 def fresh(text, default, stop, own_matcher):
     ig = IdGenerator()
-    return one(Parser(AstBuilder(ig)), Compiler(ig), text, TokenMatcher(default) if own_matcher else None, stop)
+    return one(Parser(AstBuilder(ig)), Compiler(ig), text, TokenMatcher(default) if own_matcher is True else None, stop)
 
 
-CONFIGS = [('en', False, True), ('fr', False, True), ('en', True, True), ('en', False, False), ('fr', True, True)]
+# (default dialect, stop_at_first_error, matcher: True = one matcher passed to every parse, False = never passed,
+#  'mixed' = a matcher for another dialect passed to every parse but the last, which passes none)
+CONFIGS = [('en', False, True), ('fr', False, True), ('en', True, True), ('en', False, False), ('fr', True, True), ('no', False, 'mixed'), ('fr', True, 'mixed')]
 
 
 @worker
@@ -153,8 +156,8 @@ def job_histories(first, h, config):
             acc.nontrivial += 1
             r = None
             live = []
-            for i in hist:
-                r = one(p, c, POOL[i], m, stop)
+            for pos, i in enumerate(hist):
+                r = one(p, c, POOL[i], (None if (own_matcher == 'mixed' and pos == len(hist) - 1) else m), stop)
                 if r[0] == 'ok':
                     live.append((i, r[3]))
             for i, (d, pk, frozen) in live:
@@ -380,7 +383,9 @@ def run(ctx):
                        'the scheduler owns all nondeterminism: a failing schedule must reproduce when replayed']
     h = ctx.pick(3, 4)
     cfgs = range(len(CONFIGS)) if ctx.quick else range(len(CONFIGS))
-    ctx.level('histories h<=%d' % h, [job_histories.job(i, h, c) for c in cfgs for i in range(len(POOL))])
+    # every configuration gets all pairs; the longest histories run in three configurations (all of them in the thorough tier)
+    deep = (0, 2, 5) if ctx.quick else tuple(cfgs)
+    ctx.level('histories h<=%d' % h, [job_histories.job(i, h if c in deep else h - 1, c) for c in cfgs for i in range(len(POOL))])
     acc = Acc()
     md_histories(acc)
     ctx.acc.merge(acc)
@@ -411,8 +416,8 @@ def replay(case):
         ig = IdGenerator()
         p, c, m = Parser(AstBuilder(ig)), Compiler(ig), (TokenMatcher(default) if own else None)
         r = None
-        for i in case['history']:
-            r = one(p, c, POOL[i], m, stop)
+        for pos, i in enumerate(case['history']):
+            r = one(p, c, POOL[i], (None if (own == 'mixed' and pos == len(case['history']) - 1) else m), stop)
         f = fresh(POOL[case['history'][-1]], default, stop, own)
         if r[:2] != f[:2] or r[0] in ('modified', 'exc'):
             return ['history %s: reused instances give %s, fresh instances %s' % (case['history'], _short(r)[:300], _short(f)[:300])]
